@@ -59,7 +59,7 @@ func TestCheck(t *testing.T) {
 
 // TestHistogram: feature histogram over a fixed-seed sample (5000 long / 500 short).
 func TestHistogram(t *testing.T) {
-	n := 500
+	n := 1000
 	if long() {
 		n = 5000
 	}
@@ -103,76 +103,239 @@ func printHist(t *testing.T, hist map[string]int, n int) {
 }
 
 type runStats struct {
-	runs, panics, recovered, looped, fuelOut int
+	runs, panics, recovered, looped, fuelOut, iters int
 }
 
-// buildAndRun compiles the program as module t and runs it under several
-// configurations; all outputs must be identical.
-func buildAndRun(t *testing.T, p *Program, st *runStats) {
+func goCmd(dir string, args ...string) *exec.Cmd {
+	cmd := exec.Command("go", args...)
+	cmd.Dir = dir
+	cmd.Env = append(os.Environ(), "GOFLAGS=-mod=mod", "GOPROXY=off")
+	return cmd
+}
+
+func keepFailure(p *Program) string {
+	keep := filepath.Join(os.TempDir(), "gogen_exec_fail.go")
+	os.WriteFile(keep, []byte(p.Src), 0o644)
+	return keep
+}
+
+// runBinary runs bin and returns stdout; it fails on non-zero exit or when
+// the run takes longer than limit.
+func runBinary(bin string, limit time.Duration, env ...string) (string, error) {
+	ctx, cancel := context.WithTimeout(context.Background(), limit+10*time.Second)
+	defer cancel()
+	cmd := exec.CommandContext(ctx, bin)
+	cmd.Env = append(os.Environ(), env...)
+	var out, errb bytes.Buffer
+	cmd.Stdout, cmd.Stderr = &out, &errb
+	start := time.Now()
+	err := cmd.Run()
+	if err != nil {
+		tail := errb.String()
+		if len(tail) > 2000 {
+			tail = tail[:2000]
+		}
+		return out.String(), fmt.Errorf("run %s: %v\nstderr: %s", filepath.Base(bin), err, tail)
+	}
+	if el := time.Since(start); el > limit {
+		return out.String(), fmt.Errorf("run %s took %v (limit %v)", filepath.Base(bin), el, limit)
+	}
+	return out.String(), nil
+}
+
+// fourRuns builds the module in dir twice (optimised and -N -l) and runs the
+// binaries: opt, opt again, opt with GOMAXPROCS=1, noopt. All stdout must agree.
+func fourRuns(dir string, limit time.Duration) (string, error) {
+	if b, err := goCmd(dir, "build", "-o", "opt", ".").CombinedOutput(); err != nil {
+		return "", fmt.Errorf("go build: %v\n%s", err, b)
+	}
+	if b, err := goCmd(dir, "build", "-o", "noopt", "-gcflags=all=-N -l", ".").CombinedOutput(); err != nil {
+		return "", fmt.Errorf("go build -N -l: %v\n%s", err, b)
+	}
+	o1, err := runBinary(filepath.Join(dir, "opt"), limit)
+	if err != nil {
+		return o1, err
+	}
+	for i, c := range []struct {
+		bin string
+		env []string
+	}{{"opt", nil}, {"opt", []string{"GOMAXPROCS=1"}}, {"noopt", nil}} {
+		o, err := runBinary(filepath.Join(dir, c.bin), 3*limit, c.env...)
+		if err != nil {
+			return o1, err
+		}
+		if o != o1 {
+			return o1, fmt.Errorf("run %d (%s %v) differs from the first run:\n%s", i+2, c.bin, c.env, firstDiff(o1, o))
+		}
+	}
+	return o1, nil
+}
+
+func writeFiles(dir string, files map[string]string) error {
+	for name, content := range files {
+		full := filepath.Join(dir, name)
+		if err := os.MkdirAll(filepath.Dir(full), 0o755); err != nil {
+			return err
+		}
+		if err := os.WriteFile(full, []byte(content), 0o644); err != nil {
+			return err
+		}
+	}
+	return nil
+}
+
+// execSingle: the module layout of the consumer: p/p.go + MainFor.
+func execSingle(p *Program) error {
 	dir, err := os.MkdirTemp("", "gogen")
 	if err != nil {
-		t.Fatal(err)
+		return err
 	}
 	defer os.RemoveAll(dir)
-	must := func(err error) {
-		if err != nil {
-			t.Fatal(err)
-		}
+	if err := writeFiles(dir, map[string]string{
+		"go.mod": "module t\n\ngo 1.26\n", "p/p.go": p.Src, "main.go": MainFor(p)}); err != nil {
+		return err
 	}
-	must(os.MkdirAll(filepath.Join(dir, "p"), 0o755))
-	must(os.WriteFile(filepath.Join(dir, "go.mod"), []byte("module t\n\ngo 1.26\n"), 0o644))
-	must(os.WriteFile(filepath.Join(dir, "p", "p.go"), []byte(p.Src), 0o644))
-	must(os.WriteFile(filepath.Join(dir, "main.go"), []byte(MainFor(p)), 0o644))
-	fail := func(format string, args ...any) {
-		keep := filepath.Join(os.TempDir(), "gogen_exec_fail.go")
-		os.WriteFile(keep, []byte(p.Src), 0o644)
-		os.WriteFile(keep+".main", []byte(MainFor(p)), 0o644)
-		t.Fatalf("%s (source kept in %s)", fmt.Sprintf(format, args...), keep)
+	out, err := fourRuns(dir, 2*time.Second)
+	if err != nil {
+		return fmt.Errorf("%v (source kept in %s)", err, keepFailure(p))
 	}
-	build := func(out string, flags ...string) {
-		args := append([]string{"build", "-o", out}, flags...)
-		args = append(args, ".")
-		cmd := exec.Command("go", args...)
-		cmd.Dir = dir
-		cmd.Env = append(os.Environ(), "GOFLAGS=-mod=mod", "GOPROXY=off")
-		if b, err := cmd.CombinedOutput(); err != nil {
-			fail("go build %v: %v\n%s", flags, err, b)
-		}
-	}
-	run := func(bin string, env ...string) string {
-		ctx, cancel := context.WithTimeout(context.Background(), 10*time.Second)
-		defer cancel()
-		cmd := exec.CommandContext(ctx, filepath.Join(dir, bin))
-		cmd.Env = append(os.Environ(), env...)
-		var out, errb bytes.Buffer
-		cmd.Stdout, cmd.Stderr = &out, &errb
-		start := time.Now()
-		err := cmd.Run()
-		el := time.Since(start)
-		if err != nil {
-			fail("run %s: %v\nstderr: %s", bin, err, errb.String())
-		}
-		if el > 2*time.Second {
-			fail("run %s took %v", bin, el)
-		}
-		return out.String()
-	}
-	build("opt")
-	build("noopt", "-gcflags=all=-N -l")
-	o1 := run("opt")
-	o2 := run("opt")
-	o3 := run("opt", "GOMAXPROCS=1")
-	o4 := run("noopt")
-	for i, o := range []string{o2, o3, o4} {
-		if o != o1 {
-			fail("output %d differs from first run:\n%s", i+2, firstDiff(o1, o))
-		}
-	}
-	lines := strings.Split(strings.TrimSpace(o1), "\n")
+	lines := strings.Split(strings.TrimSpace(out), "\n")
 	if len(lines) != p.NumFuncs*len(p.Vectors) {
-		fail("expected %d lines, got %d", p.NumFuncs*len(p.Vectors), len(lines))
+		return fmt.Errorf("expected %d lines, got %d", p.NumFuncs*len(p.Vectors), len(lines))
 	}
-	for _, l := range lines {
+	i := 0
+	for fn := 0; fn < p.NumFuncs; fn++ {
+		for v := range p.Vectors {
+			pre := fmt.Sprintf("%d %d res=", fn, v)
+			if !strings.HasPrefix(lines[i], pre) || !strings.Contains(lines[i], " panic=") || !strings.Contains(lines[i], " trace=") || !strings.Contains(lines[i], " g=") {
+				return fmt.Errorf("line %d malformed: %q", i, lines[i])
+			}
+			i++
+		}
+	}
+	return nil
+}
+
+// instrument turns the marker comments into counters and adds Stats().
+func instrument(src string) string {
+	n := 0
+	var b strings.Builder
+	for _, line := range strings.SplitAfter(src, "\n") {
+		switch strings.TrimSpace(line) {
+		case "//gogen:loop":
+			fmt.Fprintf(&b, "statLoop(%d)\n", n)
+			n++
+		case "//gogen:recovered":
+			b.WriteString("statRec++\n")
+		default:
+			b.WriteString(line)
+		}
+	}
+	fmt.Fprintf(&b, `
+var statCnt [%d]int
+var statRec int
+
+func statLoop(i int) { statCnt[i]++ }
+
+func Stats() (maxIter, total, rec int) {
+	for i := range statCnt {
+		if statCnt[i] > maxIter {
+			maxIter = statCnt[i]
+		}
+		total += statCnt[i]
+		statCnt[i] = 0
+	}
+	rec = statRec
+	statRec = 0
+	return
+}
+`, n+1)
+	return b.String()
+}
+
+// batchMain is like MainFor for many programs living in t/p0, t/p1, ...
+func batchMain(progs []*Program, stats bool) string {
+	var b strings.Builder
+	b.WriteString("package main\n\nimport (\n\t\"os\"\n\t\"strconv\"\n")
+	for i := range progs {
+		fmt.Fprintf(&b, "\tp%d \"t/p%d\"\n", i, i)
+	}
+	b.WriteString(")\n\ntype vec struct {\n\ta, b int\n\ts string\n\tc bool\n}\n\n")
+	b.WriteString("type prog struct {\n\trun func(int, int, int, string, bool) string\n\tstats func() (int, int, int)\n\tnf int\n\tvecs []vec\n}\n\nvar progs = []prog{\n")
+	for i, p := range progs {
+		st := "nil"
+		if stats {
+			st = fmt.Sprintf("p%d.Stats", i)
+		}
+		fmt.Fprintf(&b, "\t{p%d.Run, %s, %d, []vec{", i, st, p.NumFuncs)
+		for _, v := range p.Vectors {
+			fmt.Fprintf(&b, "{%s, %s, %q, %v}, ", intLit(v.A), intLit(v.B), v.S, v.C)
+		}
+		b.WriteString("}},\n")
+	}
+	b.WriteString(`}
+
+func main() {
+	for pi, p := range progs {
+		for fn := 0; fn < p.nf; fn++ {
+			for vi, v := range p.vecs {
+				line := strconv.Itoa(pi) + " " + strconv.Itoa(fn) + " " + strconv.Itoa(vi) + " " + p.run(fn, v.a, v.b, v.s, v.c)
+				if p.stats != nil {
+					m, t, r := p.stats()
+					line += " STATS " + strconv.Itoa(m) + " " + strconv.Itoa(t) + " " + strconv.Itoa(r)
+				}
+				os.Stdout.WriteString(line + "\n")
+			}
+		}
+	}
+}
+`)
+	return b.String()
+}
+
+// execBatch builds many programs into one binary (one link instead of N).
+func execBatch(progs []*Program, stats bool, st *runStats) error {
+	dir, err := os.MkdirTemp("", "gogenbatch")
+	if err != nil {
+		return err
+	}
+	defer os.RemoveAll(dir)
+	files := map[string]string{"go.mod": "module t\n\ngo 1.26\n", "main.go": batchMain(progs, stats)}
+	for i, p := range progs {
+		src := p.Src
+		if stats {
+			src = instrument(src)
+		}
+		files[fmt.Sprintf("p%d/p.go", i)] = src
+	}
+	if err := writeFiles(dir, files); err != nil {
+		return err
+	}
+	limit := time.Duration(len(progs)) * 2 * time.Second
+	var out string
+	if stats {
+		if b, err := goCmd(dir, "build", "-o", "opt", ".").CombinedOutput(); err != nil {
+			return fmt.Errorf("go build: %v\n%s", err, b)
+		}
+		out, err = runBinary(filepath.Join(dir, "opt"), limit)
+	} else {
+		out, err = fourRuns(dir, limit)
+	}
+	if err != nil {
+		// identify the program: the last complete line names it
+		lines := strings.Split(strings.TrimSpace(out), "\n")
+		last := lines[len(lines)-1]
+		var pi int
+		fmt.Sscanf(last, "%d", &pi)
+		if m := strings.Index(err.Error(), "\nA: "); m >= 0 {
+			fmt.Sscanf(err.Error()[m+4:], "%d", &pi)
+		}
+		if pi < len(progs) {
+			return fmt.Errorf("%v\n(program %d of the batch, or its successor; source kept in %s)", err, pi, keepFailure(progs[pi]))
+		}
+		return err
+	}
+	for _, l := range strings.Split(strings.TrimSpace(out), "\n") {
 		st.runs++
 		if !strings.Contains(l, "panic=none") {
 			st.panics++
@@ -180,7 +343,19 @@ func buildAndRun(t *testing.T, p *Program, st *runStats) {
 		if strings.Contains(l, "fuel=0") {
 			st.fuelOut++
 		}
+		if i := strings.Index(l, " STATS "); i >= 0 {
+			var m, tot, r int
+			fmt.Sscanf(l[i+7:], "%d %d %d", &m, &tot, &r)
+			if m >= 2 {
+				st.looped++
+			}
+			if r > 0 {
+				st.recovered++
+			}
+			st.iters += tot
+		}
 	}
+	return nil
 }
 
 func firstDiff(a, b string) string {
@@ -193,39 +368,114 @@ func firstDiff(a, b string) string {
 	return "length differs"
 }
 
-// TestExec: build and run a sample of programs (30 short / 300 long).
-func TestExec(t *testing.T) {
-	if _, err := exec.LookPath("go"); err != nil {
-		t.Skip("no go tool")
-	}
-	n := 30
-	if long() {
-		n = 300
-	}
+func sample(t *testing.T, n, offset int) []*Program {
+	gen := rapid.Custom(func(rt *rapid.T) *Program { return Generate(rt, DefaultConfig()) })
 	var progs []*Program
-	genN(t, n, func(p *Program) { progs = append(progs, p) })
-	var mu sync.Mutex
-	total := &runStats{}
-	sem := make(chan struct{}, 8)
+	for i := 0; i < n; i++ {
+		progs = append(progs, gen.Example(offset+i))
+	}
+	return progs
+}
+
+// TestExecSingle: the consumer's module layout with MainFor (3 short / 20 long).
+func TestExecSingle(t *testing.T) {
+	n := 3
+	if long() {
+		n = 20
+	}
+	progs := sample(t, n, 100000)
+	errs := make([]error, n)
 	var wg sync.WaitGroup
-	for _, p := range progs {
+	sem := make(chan struct{}, 4)
+	for i, p := range progs {
 		wg.Add(1)
-		sem <- struct{}{}
-		go func(p *Program) {
+		go func() {
 			defer wg.Done()
+			sem <- struct{}{}
 			defer func() { <-sem }()
-			st := &runStats{}
-			buildAndRun(t, p, st)
-			mu.Lock()
-			total.runs += st.runs
-			total.panics += st.panics
-			total.fuelOut += st.fuelOut
-			mu.Unlock()
-		}(p)
+			errs[i] = execSingle(p)
+		}()
 	}
 	wg.Wait()
-	if total.runs > 0 {
-		t.Logf("programs=%d runs=%d panics=%.1f%% fuel-exhausted=%.1f%%", n, total.runs,
-			100*float64(total.panics)/float64(total.runs), 100*float64(total.fuelOut)/float64(total.runs))
+	for i, err := range errs {
+		if err != nil {
+			t.Errorf("program %d: %v", i, err)
+		}
+	}
+}
+
+// TestExecBatch: opt / opt / GOMAXPROCS=1 / -N -l outputs agree (30 short / 300 long).
+func TestExecBatch(t *testing.T) {
+	n, per := 30, 30
+	if long() {
+		n, per = 300, 50
+	}
+	progs := sample(t, n, 0)
+	st := &runStats{}
+	for i := 0; i < n; i += per {
+		if err := execBatch(progs[i:min(n, i+per)], false, st); err != nil {
+			t.Fatalf("batch at %d: %v", i, err)
+		}
+	}
+	t.Logf("programs=%d runs=%d panics=%.1f%% fuel-exhausted=%.1f%%", n, st.runs, pct(st.panics, st.runs), pct(st.fuelOut, st.runs))
+}
+
+// TestBehaviour measures, on instrumented copies, how often a run iterates a
+// loop at least twice, panics, and recovers.
+func TestBehaviour(t *testing.T) {
+	n, per := 80, 80
+	if long() {
+		n, per = 300, 50
+	}
+	progs := sample(t, n, 0)
+	st := &runStats{}
+	for i := 0; i < n; i += per {
+		if err := execBatch(progs[i:min(n, i+per)], true, st); err != nil {
+			t.Fatalf("batch at %d: %v", i, err)
+		}
+	}
+	t.Logf("programs=%d runs=%d looped>=2: %.1f%% panics: %.1f%% recovered: %.1f%% fuel-exhausted: %.1f%% avg loop-body executions/run: %.1f",
+		n, st.runs, pct(st.looped, st.runs), pct(st.panics, st.runs), pct(st.recovered, st.runs), pct(st.fuelOut, st.runs), float64(st.iters)/float64(max(1, st.runs)))
+	if pct(st.looped, st.runs) < 30 || pct(st.panics, st.runs) < 10 || pct(st.recovered, st.runs) < 5 {
+		t.Errorf("behaviour targets missed")
+	}
+}
+
+func pct(a, b int) float64 { return 100 * float64(a) / float64(max(1, b)) }
+
+// TestConfigs: other configurations (tiny, everything disabled, old language
+// version) still produce well-typed programs.
+func TestConfigs(t *testing.T) {
+	all := map[string]bool{"shadowing": true}
+	for _, tm := range templates {
+		all[tm.tag] = true
+	}
+	cfgs := []Config{
+		{MaxFuncs: 3, MaxStmtDepth: 1, MaxExprDepth: 1, MaxStmts: 3},
+		{MaxFuncs: 8, MaxStmtDepth: 4, MaxExprDepth: 4, MaxStmts: 24},
+		{MaxFuncs: 5, MaxStmtDepth: 3, MaxExprDepth: 2, MaxStmts: 10, Disable: all},
+		{MaxFuncs: 5, MaxStmtDepth: 3, MaxExprDepth: 2, MaxStmts: 10, GoVersion: "go1.22"},
+	}
+	for ci, cfg := range cfgs {
+		gen := rapid.Custom(func(rt *rapid.T) *Program { return Generate(rt, cfg) })
+		for i := 0; i < 100; i++ {
+			p := gen.Example(i)
+			if err := Check(p.Src); err != nil {
+				t.Fatalf("config %d seed %d: %v", ci, i, err)
+			}
+			if ci == 2 {
+				// these tags are also produced by ordinary expressions/statements
+				shared := map[string]bool{"goto-forward": true, "goto-back": true, "rotate-assign": true, "method-value": true,
+					"named-func-type": true, "generic-type": true, "slice-3index": true}
+				for _, f := range p.Features {
+					if all[f] && !shared[f] {
+						t.Fatalf("config %d: disabled feature %s generated", ci, f)
+					}
+				}
+			}
+			if ci == 3 && strings.Contains(p.Src, "range seq") {
+				t.Fatalf("config %d: range-over-func generated for go1.22", ci)
+			}
+		}
 	}
 }
